@@ -3,7 +3,7 @@
    Models: Dec/StdBind.v (encoding/json), Dec/SonicBind.v (sonic), Dec/FieldMap.v, Dec/Range.v, Dec/Trailing.v. *)
 From Coq Require Import NArith ZArith List Bool String.
 From SV.Dec Require Import Ty Val Parse Text Num Common FieldMap FieldMapProofs FieldLookup Range Trailing StdBind SonicBind
-  DecProofs OptProofs DecProofs2 Witness Witness2.
+  DecProofs OptProofs DecProofs2 Witness Witness2 Compile Exec ExecProofs ExecWitness.
 Import ListNotations.
 Open Scope string_scope.
 
@@ -152,6 +152,54 @@ Print Assumptions C01_bind_agree_maps_quoted_example.
 Theorem C01_plain_strings_ok : forall o b, forallb plain_byte b = true -> str_ok o b /\ key_ok b.
 Proof. exact (fun o b H => conj (plain_str_ok o b H) (plain_key_ok b H)). Qed.
 Print Assumptions C01_plain_strings_ok.
+
+(* ------------------------------------------------------------------ the compiled program
+   Dec/Compile.v transcribes jitdec/compiler.go (tied instruction by instruction to the real IL), Dec/Exec.v interprets
+   the opcodes with the semantics of the _asm_OP_* emitters over bytes (tied to the real decoder on every generated
+   case).  First link to the tree-level binder: for primitive destinations (bool, every integer width, float32, float64)
+   the compiled program computes exactly sonic_unmarshal - every input, option set, initial value, hash.  For composite
+   types the link is the differential run only. *)
+Theorem C01_il_prim_correct : forall (h : bytes -> N) (o : opts) t s v,
+  prim t = true -> il_unmarshal h o t s v = sonic_unmarshal h Jit o t s v.
+Proof. exact il_prim_correct. Qed.
+Print Assumptions C01_il_prim_correct.
+
+(* hence the agreement theorem speaks about the compiled program there *)
+Theorem C01_il_prim_agree : forall (h : bytes -> N) (o : opts) t s v,
+  prim t = true -> frag t = true -> input_ok o s -> (forall j, parse s = Some j -> guards o j) ->
+  match parse s with
+  | Some j => il_unmarshal h o t s v = std_unmarshal o t s v
+  | None => std_unmarshal o t s v = Err /\
+            (il_unmarshal h o t s v = Err \/ skipped_only_structural h o t s v)
+  end.
+Proof. exact il_prim_vs_std. Qed.
+Print Assumptions C01_il_prim_agree.
+
+(* a trailing comma after exactly len(array) elements: an error since fix b376c30, like encoding/json; extra elements
+   are still skipped (a program-level behaviour: the tree model cannot read `[1,]` at all) *)
+Theorem C01_il_array_trailing_comma_agree :
+  il_unmarshal h1 opts_std (TArr 1 TAny) (b "[1,]") (zero (TArr 1 TAny)) = Err /\
+  il_unmarshal h1 opts_default (TArr 2 (TInt I64)) (b "[1,2 , ]") (zero (TArr 2 (TInt I64))) = Err /\
+  std_unmarshal opts_std (TArr 1 TAny) (b "[1,]") (zero (TArr 1 TAny)) = Err /\
+  il_unmarshal h1 opts_std (TArr 1 (TInt I64)) (b "[1, ""x"", [2,3]]") (zero (TArr 1 (TInt I64))) = Ok (VList [VInt 1] []) /\
+  std_unmarshal opts_std (TArr 1 (TInt I64)) (b "[1, ""x"", [2,3]]") (zero (TArr 1 (TInt I64))) = Ok (VList [VInt 1] []).
+Proof. exact il_array_trailing_comma_agree. Qed.
+Print Assumptions C01_il_array_trailing_comma_agree.
+
+(* null into **T with ( *T ) an unmarshaler on the program compiled since fix fac5479; `null 5` is trailing data *)
+Theorem C01_il_ptrptr_null :
+  il_unmarshal h1 opts_std (TPtr (TPtr TUnm)) (b "null") VNil = Ok VNil /\
+  il_unmarshal h1 opts_std (TPtr (TPtr TUnm)) (b "null 5") VNil = Err /\
+  il_unmarshal h1 opts_std (TPtr (TPtr TUnm)) (b " [1, 2]") VNil = Ok (VPtr (VPtr (VStr (b "[1, 2]")))).
+Proof. exact il_ptrptr_null. Qed.
+Print Assumptions C01_il_ptrptr_null.
+
+(* the example documents of the agreement theorems through their compiled programs *)
+Theorem C01_il_examples :
+  il_unmarshal h1 opts_std ex_ty ex_in ex_v0 = Ok ex_out /\ il_unmarshal h1 opts_default ex_ty ex_in ex_v0 = Ok ex_out /\
+  il_unmarshal h1 opts_std ex2_ty ex2_in ex2_v0 = Ok ex2_out /\ il_unmarshal h1 opts_default ex2_ty ex2_in ex2_v0 = Ok ex2_out.
+Proof. exact il_examples. Qed.
+Print Assumptions C01_il_examples.
 
 (* ------------------------------------------------------------------ clauses the faithful model violates
    (each witness is replayed on the real code from corpus/C01 and listed in known_findings.d/C01.json) *)
